@@ -603,6 +603,74 @@ def child_batch(pk, rng, n, R, ktmon, work, sizes=None):
                     R.violate("py.batch.cgr_wrong_exception", "CGR vectorise_batch raised %r instead of ValueError" % (e,), case)
                     break
         R.sample({"size": size, "threads": threads, "k": k, "S": S})
+    if sizes is None:  # (not in the memcheck run: several hundred large batch calls)
+        concurrent_callers(pk, rng, R, threads)
+
+
+def concurrent_callers(pk, rng, R, threads):
+    """Several *Python* threads call the batch methods of the same computer objects at the same time, good batches and
+    batches that must raise ValueError mixed.  Every call must still return exactly the per-sequence results of its own
+    arguments (expected values are computed beforehand, one call at a time).  If the binding holds the interpreter lock
+    for the whole call the threads simply take turns; if it releases the lock the calls really overlap."""
+    import threading
+    k = rng.randint(2, 4)
+    S = rng.choice([16, 1000])
+    oc, cc = pk.OligoComputer(k), pk.CgrComputer(S)
+    jobs = []  # (what, args, expected or ValueError)
+    for j in range(6):
+        size = rng.choice([64, 200, 400])
+        nseqs = ["".join(rng.choices("ACGTacgtUu", k=rng.randint(50, 700))) for _ in range(size)]
+        jobs.append(("cgr", nseqs, [[tuple(p) for p in cc.vectorise_one(x)] for x in nseqs]))
+        bad = list(nseqs[: rng.randint(1, 8)])
+        bad[rng.randrange(len(bad))] = rng.choice(["ACGTNACGT", "N", "ACG T", "AC\u00c5GT"])
+        jobs.append(("cgr", bad, ValueError))
+        oseqs = [gen_string(rng, 300)[1] for _ in range(size)]
+        norm = rng.random() < 0.5
+        jobs.append(("oligo", (oseqs, norm), [list(oc.vectorise_one(x, norm)) for x in oseqs]))
+    nthreads, rounds = 6, 3
+    R.case(True, ("concurrent-callers", threads, k, S, len(jobs)))
+    R.cls("batch calls from %d Python threads on shared computers" % nthreads)
+    problems, calls = [], [0]
+    lock = threading.Lock()
+    barrier = threading.Barrier(nthreads)
+
+    def worker(t):
+        order = list(range(len(jobs)))
+        random.Random(1000 + t).shuffle(order)
+        barrier.wait()
+        for r in range(rounds):
+            for ji in order:
+                what, args, exp = jobs[ji]
+                try:
+                    if what == "cgr":
+                        got = [[tuple(p) for p in v] for v in cc.vectorise_batch(args)]
+                    else:
+                        got = [list(v) for v in oc.vectorise_batch(args[0], args[1])]
+                except ValueError:
+                    got = ValueError
+                except BaseException as e:  # noqa: BLE001
+                    got = repr(e)
+                with lock:
+                    calls[0] += 1
+                    if got != exp and len(problems) < 5:
+                        if exp is ValueError:
+                            msg = "a batch with a non-nucleotide entry did not raise ValueError (got %s)" % (short(repr(got), 60),)
+                        elif got is ValueError or isinstance(got, str):
+                            msg = "a valid %s batch of %d raised %r" % (what, len(exp), got)
+                        else:
+                            bad_i = next((i for i, (a, b) in enumerate(zip(got, exp)) if a != b), min(len(got), len(exp)))
+                            msg = "%s batch of %d: result %d differs from the per-sequence result of argument %d (%d results returned)" % (what, len(exp), bad_i, bad_i, len(got))
+                        problems.append((t, r, ji, msg))
+
+    ts = [threading.Thread(target=worker, args=(t,)) for t in range(nthreads)]
+    for t in ts:
+        t.start()
+    for t in ts:
+        t.join()
+    R.extra["concurrent_python_batch_calls"] = R.extra.get("concurrent_python_batch_calls", 0) + calls[0]
+    for t, r, ji, msg in problems[:2]:
+        R.violate("py.batch.concurrent_callers", "with %d Python threads calling the same computers (thread %d, round %d, job %d): %s" % (nthreads, t, r, ji, msg),
+                  {"what": "concurrent batch calls", "k": k, "S": S, "python_threads": nthreads, "threads": threads, "job": ji})
 
 
 def churn(rng, approx_len):
